@@ -307,7 +307,7 @@ func judgeEdit(r *mon.Rec, idx int) {
 	}
 }
 
-var alphabet = []byte{0x00, 0x01, 0x02, 0x03, 0x3f, 0x40, 'a', 0xC0, 0xC1}
+var alphabet = reflabel.Alphabet
 
 func mutate(r *rand.Rand, b []byte) []byte {
 	out := append([]byte{}, b...)
@@ -366,7 +366,7 @@ func TestCheck(t *testing.T) {
 	r := mon.New("C19")
 	defer r.Flush()
 	if os.Getenv("VERIF_REPLAY") == "" {
-		r.Watchdog(60 * time.Second)
+		r.Watchdog(20 * time.Second)
 	}
 	var rp replay
 	if mon.ReplayCase(&rp) {
@@ -432,6 +432,7 @@ func TestCheck(t *testing.T) {
 		}
 		rng := r.Rand("mut", i)
 		judgeBytes(r, "mut", mutate(rng, reflabel.Encode(genNames(rng))))
+		judgeBytes(r, "web", reflabel.Web(rng))
 	}
 	// (3b) committed corpus: replay + mutants
 	corp := mon.Corpus("label")
